@@ -534,7 +534,7 @@ def gen_eds_world(rng, stats=None, force=None):
     faults = None
     if rng.random() < 0.1 and not force.get("no_faults"):
         faults = rng.choice([{"status": True}, {"update": True}, {"rs_delete": ["*"]}, {"rs_create": True},
-                             {"list_fail": ["ExtendedDaemonSetReplicaSet"]}])
+                             {"list_fail": ["ExtendedDaemonSetReplicaSet"]}, {"list_fail": ["Pod"]}, {"list_fail": ["Node"]}])
         if "rs_delete" in faults:
             faults = {"rs_delete": [r["metadata"]["name"] for r in rss]}
     ops.append(K.reconcile("eds", NS, EDS, faults))
